@@ -3,8 +3,8 @@
 #ifndef TETL_CSTDLIB_STRTOUL_HPP
 #define TETL_CSTDLIB_STRTOUL_HPP
 
+#include <etl/_cstdlib/strto_integer.hpp>
 #include <etl/_cstring/strlen.hpp>
-#include <etl/_strings/to_integer.hpp>
 
 namespace etl {
 
@@ -13,7 +13,7 @@ namespace etl {
 /// https://en.cppreference.com/w/cpp/string/byte/strtoul
 [[nodiscard]] constexpr auto strtoul(char const* str, char const** last, int base) noexcept -> unsigned long
 {
-    auto const res = strings::to_integer<unsigned long>(str, static_cast<unsigned long>(base));
+    auto const res = detail::strto_integer<unsigned long>(str, base);
     if (last != nullptr) {
         *last = res.end;
     }
@@ -25,7 +25,7 @@ namespace etl {
 /// https://en.cppreference.com/w/cpp/string/byte/strtoul
 [[nodiscard]] constexpr auto strtoull(char const* str, char const** last, int base) noexcept -> unsigned long long
 {
-    auto const res = strings::to_integer<unsigned long long>(str, static_cast<unsigned long long>(base));
+    auto const res = detail::strto_integer<unsigned long long>(str, base);
     if (last != nullptr) {
         *last = res.end;
     }
